@@ -15,6 +15,7 @@ import (
 )
 
 type Engine struct {
+	diagFieldSet map[string]bool
 	prog  *ssa.Program
 	pkg   *ssa.Package
 	tpkg  *types.Package
